@@ -12,6 +12,7 @@ import (
 	"net/http"
 	"net/http/httptest"
 	"os"
+	"regexp"
 	"sort"
 	"strconv"
 	"strings"
@@ -71,6 +72,11 @@ func runGo(ops [][]any) Obs {
 			bw.NoContent(num(o[1]))
 		case "writeheader":
 			bw.WriteHeader(num(o[1]))
+		case "htmlwith":
+			bw.SetStatus(num(o[2]))
+			bw.WriteHTML([]byte(str(o[1])))
+		case "formatted":
+			_ = bw.Formatted(num(o[1]), str(o[2]))
 		}
 	}
 	bw.CommitPending()
@@ -83,8 +89,12 @@ func observe(rec *counting) Obs {
 	for k, v := range res.Header {
 		h[k] = v
 	}
-	return Obs{Wh: rec.wh, Code: res.StatusCode, Hdr: h, Body: rec.Body.String()}
+	// the default envelope carries time.Now().Unix(): not an observable of the property
+	body := tsRe.ReplaceAllString(rec.Body.String(), `"timestamp":0`)
+	return Obs{Wh: rec.wh, Code: res.StatusCode, Hdr: h, Body: body}
 }
+
+var tsRe = regexp.MustCompile(`"timestamp":\d+`)
 
 func q(s string) string { return strconv.Quote(s) }
 
@@ -116,6 +126,15 @@ func runScript(ops [][]any) (o Obs) {
 			fmt.Fprintf(&sb, "$w->noContent(%d);\n", num(op[1]))
 		case "writeheader":
 			fmt.Fprintf(&sb, "$w->writeHeader(%d);\n", num(op[1]))
+		case "htmlwith":
+			fmt.Fprintf(&sb, "$w->html(%s, %d);\n", q(str(op[1])), num(op[2]))
+		case "formatted":
+			// error(message, code) and success(null, message, code) both reach writeFormattedResponse
+			if num(op[1]) >= 400 {
+				fmt.Fprintf(&sb, "$w->error(%s, %d);\n", q(str(op[2])), num(op[1]))
+			} else {
+				fmt.Fprintf(&sb, "$w->success(null, %s, %d);\n", q(str(op[2])), num(op[1]))
+			}
 		}
 	}
 	sb.WriteString("}\n")
